@@ -343,7 +343,34 @@ def record_problems(o, P):
     return probs, ndet
 
 
-def run(ctx):
+def twin_ions(rnd, text):
+    """the structure plus two ions of the same residue name and chain, each 2 A beyond one oxygen of the most buried
+    carboxylate (on the line from the carboxyl carbon through the oxygen); None if there is no complete carboxylate"""
+    base = observe.run(text, [], want_text=False)
+    if base.error:
+        return None
+    conf = base.mol.conformations[base.mol.conformation_names[0]]
+    best = None
+    for g in conf.groups:
+        if g.type == 'COO' and g.titratable:
+            ox = [a for a in g.interaction_atoms_for_acids if a.element == 'O']
+            if len(ox) == 2 and (best is None or g.num_volume > best[0].num_volume):
+                best = (g, ox)
+    if best is None:
+        return None
+    g, ox = best
+    ion, q = rnd.choice([("ZN", "ZN"), ("CA", "CA"), ("MG", "MG")])
+    lines = [l for l in pdbgen.lines_of(text) if not l.startswith("END")]
+    for k, o in enumerate(ox):
+        d = [o.x - g.atom.x, o.y - g.atom.y, o.z - g.atom.z]
+        n = math.sqrt(sum(c * c for c in d)) or 1.0
+        pos = [round(c + 2.0 * dc / n, 3) for c, dc in zip((o.x, o.y, o.z), d)]
+        lines.append("HETATM%5d %-4s %3s %1s%4d    %8.3f%8.3f%8.3f  1.00  0.00          %2s\n" % (
+            9900 + k, ion, ion.rjust(3), g.atom.chain_id, 901 + k, pos[0], pos[1], pos[2], q.rjust(2)))
+    return pdbgen.text(lines)
+
+
+def _run(ctx):
     from propka.parameters import Parameters
     from propka.input import read_parameter_file
     P = read_parameter_file("propka.cfg", Parameters())
@@ -371,6 +398,13 @@ def run(ctx):
             lines = c08.altloc_variant(rnd, lines, kind=rnd.randrange(2)) if rnd.random() < 0.5 else c08.model_variant(rnd, lines)
         out_text = pdbgen.text(lines)
         inputs.append(("gen%d" % i, out_text))
+    # two ions of one kind in one chain (they share the printed label) at the two oxygens of the most buried carboxylate:
+    # every ion keeps its own determinant, each within |Q| times the Coulomb bound
+    for n, t in pdbgen.test_files(["3SGB-subset"] if ctx.quick() else ["3SGB", "1HPX"]):
+        tw = twin_ions(rnd, t)
+        if tw is not None:
+            inputs.append((n + "-twin-ions", tw))
+            ctx.count("inputs with two same-label ions at one buried carboxylate")
     bad = []
     for name, text in inputs:
         o = observe.run(text, [], want_text=False)
@@ -393,6 +427,12 @@ def run(ctx):
         solver(ctx, P)
     else:
         ctx.oblige("correspondence: energy / iterative models = real code", False, "driver not built")
+
+
+def run(ctx):
+    from .. import scoring_common
+    with scoring_common.tie(ctx, "C16's runs"):
+        _run(ctx)
 
 
 def replay(ctx, rep):
